@@ -147,35 +147,131 @@ class Acc:
                 self.extra[k] = v
 
 
-_WORK = None
+_CRUMB_FD = None
 
 
-def _shard_entry(arg):
-    fn, shard, nshards, extra = _WORK
-    fn = fn
-    acc = Acc()
-    try:
-        fn(acc, arg, nshards, *extra)
-    except BaseException as e:  # a crash of the harness is an infrastructure error, never silent
-        acc.extra['harness_error'] = '%s: %s\n%s' % (type(e).__name__, e, traceback.format_exc()[-3000:])
-    return acc
+def crumb(case):
+    """Record the case about to be executed, so that a crash of the worker (native fault) can be attributed."""
+    if _CRUMB_FD is not None:
+        b = json.dumps(jsonable(case)).encode()[:8000]
+        os.pwrite(_CRUMB_FD, len(b).to_bytes(4, 'little') + b, 0)
 
 
-def run_sharded(fn, nshards=None, extra=(), workers=None):
-    """Run fn(acc, shard, nshards, *extra) for every shard in forked workers and merge."""
-    global _WORK
+def _child(fn, my_shards, nshards, extra, wfd, crumb_path):
+    """Worker body: runs its shards one after the other, streams (shard, Acc) pickles to the parent."""
+    import pickle
+    global _CRUMB_FD
+    _CRUMB_FD = os.open(crumb_path, os.O_RDWR | os.O_CREAT, 0o600)
+    out = os.fdopen(wfd, 'wb')
+    for sh in my_shards:
+        acc = Acc()
+        os.pwrite(_CRUMB_FD, (0).to_bytes(4, 'little'), 0)
+        try:
+            fn(acc, sh, nshards, *extra)
+        except BaseException as e:  # a python-level failure of the harness is an infrastructure error, never silent
+            acc.extra['harness_error'] = '%s: %s\n%s' % (type(e).__name__, e, traceback.format_exc()[-3000:])
+        b = pickle.dumps((sh, acc))
+        out.write(len(b).to_bytes(8, 'little'))
+        out.write(b)
+        out.flush()
+    out.close()
+    os._exit(0)
+
+
+def run_sharded(fn, nshards=None, extra=(), workers=None, crash_tags=None):
+    """Run fn(acc, shard, nshards, *extra) for every shard in forked workers and merge the accumulators.
+
+    A worker that dies from a signal (segfault, abort, sanitizer) does not hang the run: the case it had
+    announced with core.crumb() is recorded as a violation of kind `crash`, the shard is abandoned and the
+    remaining shards of that worker are continued in a fresh process."""
+    import pickle
+    import select
+    import tempfile
     workers = workers or NWORKERS
     nshards = nshards or workers * 4
     total = Acc()
-    _WORK = (fn, None, nshards, extra)
     if workers <= 1:
-        for s in range(nshards):
-            total.merge(_shard_entry(s))
-        return total
-    ctx = mp.get_context('fork')
-    with ctx.Pool(workers) as pool:
-        for acc in pool.imap_unordered(_shard_entry, range(nshards)):
+        for sh in range(nshards):
+            acc = Acc()
+            try:
+                fn(acc, sh, nshards, *extra)
+            except BaseException as e:
+                acc.extra['harness_error'] = '%s: %s\n%s' % (type(e).__name__, e, traceback.format_exc()[-3000:])
             total.merge(acc)
+        return total
+    tmpd = tempfile.mkdtemp(prefix='vfcrumb')
+    todo = {w: [s for s in range(nshards) if s % workers == w] for w in range(workers)}
+    live = {}   # rfd -> dict(pid, w, buf, pending)
+    sys.stdout.flush()
+
+    def spawn(w):
+        if not todo[w]:
+            return
+        rfd, wfd = os.pipe()
+        cp = os.path.join(tmpd, 'crumb%d' % w)
+        pid = os.fork()
+        if pid == 0:
+            try:
+                os.close(rfd)
+                _child(fn, list(todo[w]), nshards, extra, wfd, cp)
+            finally:
+                os._exit(3)
+        os.close(wfd)
+        live[rfd] = {'pid': pid, 'w': w, 'buf': b'', 'crumb': cp}
+
+    for w in range(workers):
+        spawn(w)
+    crashes = 0
+    while live:
+        ready, _, _ = select.select(list(live), [], [], 5.0)
+        for rfd in ready:
+            st = live[rfd]
+            data = os.read(rfd, 1 << 20)
+            if data:
+                st['buf'] += data
+                while len(st['buf']) >= 8:
+                    n = int.from_bytes(st['buf'][:8], 'little')
+                    if len(st['buf']) < 8 + n:
+                        break
+                    sh, acc = pickle.loads(st['buf'][8:8 + n])
+                    st['buf'] = st['buf'][8 + n:]
+                    todo[st['w']].remove(sh)
+                    total.merge(acc)
+                continue
+            # EOF: worker finished or died
+            os.close(rfd)
+            del live[rfd]
+            _, status = os.waitpid(st['pid'], 0)
+            w = st['w']
+            if todo[w]:
+                crashes += 1
+                sh = todo[w].pop(0)
+                case = None
+                try:
+                    with open(st['crumb'], 'rb') as f:
+                        raw = f.read()
+                    n = int.from_bytes(raw[:4], 'little')
+                    if n:
+                        case = json.loads(raw[4:4 + n].decode())
+                except (OSError, ValueError):
+                    pass
+                sig = os.WTERMSIG(status) if os.WIFSIGNALED(status) else None
+                a = Acc()
+                a.states = 1
+                a.violation('crash', 'worker', 'native', dict(crash_tags or {}, signal=sig, exit=os.WEXITSTATUS(status) if os.WIFEXITED(status) else None),
+                            case if case is not None else {'shard': sh, 'note': 'no breadcrumb'}, 'no crash',
+                            'worker process died (signal %s) while executing this case; rest of shard %d abandoned' % (sig, sh))
+                a.cap('shards_abandoned_after_crash')
+                total.merge(a)
+                if crashes <= 64:
+                    spawn(w)
+                else:
+                    todo[w] = []
+    try:
+        import shutil
+        shutil.rmtree(tmpd, ignore_errors=True)
+    except OSError:
+        pass
     return total
 
 
